@@ -40,6 +40,16 @@ CLAIMS["C16"] = dict(
         "of the property run on the implementation.",
    design="6/C16", technique="Coq proof (DFS cycle enumeration sound+complete, unbounded) + exhaustive vm_compute for SCC <= 4 vertices + correspondence",
    note="The unbounded SCC-algorithm theorem is not proved; SCC correctness beyond 4 vertices rests on the correspondence with a brute-force oracle.")
+CLAIMS["C17"] = dict(
+   text="Coq theorems (Props/C17.v) over a file-system model of build_python_generator: for every previous state of the "
+        "output path, every grammar-level outcome and every SET of fault points (exception or process kill at any "
+        "intercepted open/write/close/replace/unlink, any partial write), the output path afterwards holds its old "
+        "content or the complete new parser, the latter only when generation succeeded; a raised failure leaves it "
+        "untouched; a grammar-level failure performs no file operation. The model is tied to build.py/__main__.py by "
+        "fault-injection runs of the real entry points (CLI and build API) whose operation trace, outcome and final "
+        "contents must equal the model's prediction; the same runs check the property directly on the implementation.",
+   design="6/C17", technique="Coq proof over a fault-point file-system model + fault-injection correspondence with build.py and the CLI",
+   note="Assumes os.replace is atomic; kills are simulated in-process (no further file operation takes effect after the kill point).")
 NOT_YET = {}
 NOT_APPLICABLE = {
  "C06": "equates the generated parser with CPython's own C parser/ast.parse, for which no executable model exists "
